@@ -17,6 +17,8 @@ import (
 	slashingtypes "github.com/KiraCore/sekai/x/slashing/types"
 	staking "github.com/KiraCore/sekai/x/staking"
 	stakingtypes "github.com/KiraCore/sekai/x/staking/types"
+	govtypes "github.com/KiraCore/sekai/x/gov/types"
+	sdked25519 "github.com/cosmos/cosmos-sdk/crypto/keys/ed25519"
 	sdk "github.com/cosmos/cosmos-sdk/types"
 )
 
@@ -28,7 +30,10 @@ func init() {
 type stakeEp struct {
 	r     *Rec
 	w     *World
-	n     int
+	n     int // validators of the genesis (accounts 0..n-1; account n is the sudo account)
+	m     int // observed accounts: the validators, then m-n accounts (world index i+1) that hold PermClaimValidator but no record yet
+	cons  map[int][]byte // consensus address announced by a claim (model index -> address)
+	claims int
 	prop  string
 	halt  bool
 	label string
@@ -61,18 +66,36 @@ func stLetter(s stakingtypes.ValidatorStatus) string {
 	return "?"
 }
 
+// acc: world account index of observed account i (the sudo account sits between the validators and the claimers)
+func (e *stakeEp) acc(i int) int {
+	if i < e.n {
+		return i
+	}
+	return i + 1
+}
+
+func (e *stakeEp) valOK(ctx sdk.Context, i int) (stakingtypes.Validator, bool) {
+	v, err := e.w.app.CustomStakingKeeper.GetValidator(ctx, sdk.ValAddress(e.w.addrs[e.acc(i)]))
+	return v, err == nil
+}
+
 func (e *stakeEp) val(ctx sdk.Context, i int) stakingtypes.Validator {
-	v, err := e.w.app.CustomStakingKeeper.GetValidator(ctx, sdk.ValAddress(e.w.addrs[i]))
+	v, err := e.w.app.CustomStakingKeeper.GetValidator(ctx, sdk.ValAddress(e.w.addrs[e.acc(i)]))
 	if err != nil {
 		panic(err)
 	}
 	return v
 }
 
+// statuses: one letter per observed account, "-" for an account without a validator record
 func (e *stakeEp) statuses(ctx sdk.Context) []string {
 	var out []string
-	for i := 0; i < e.n; i++ {
-		out = append(out, stLetter(e.val(ctx, i).Status))
+	for i := 0; i < e.m; i++ {
+		if v, ok := e.valOK(ctx, i); ok {
+			out = append(out, stLetter(v.Status))
+		} else {
+			out = append(out, "-")
+		}
 	}
 	return out
 }
@@ -83,22 +106,39 @@ func (e *stakeEp) valIndexByConsAddr(addr []byte) int {
 			return i
 		}
 	}
+	for i, a := range e.cons {
+		if bytes.Equal(a, addr) {
+			return i
+		}
+	}
 	return -1
 }
 
 func (e *stakeEp) obs(ctx sdk.Context) string {
 	sk := e.w.app.CustomStakingKeeper
 	var vs []string
-	for i := 0; i < e.n; i++ {
-		v := e.val(ctx, i)
+	pending := map[string]bool{}
+	for _, pv := range sk.GetPendingValidatorSet(ctx) {
+		pending[pv.ValKey.String()] = true
+	}
+	for i := 0; i < e.m; i++ {
+		v, ok := e.valOK(ctx, i)
+		if !ok {
+			if pending[sdk.ValAddress(e.w.addrs[e.acc(i)]).String()] {
+				vs = append(vs, fmt.Sprintf("%d:pending", i))
+			} else {
+				vs = append(vs, fmt.Sprintf("%d:-", i))
+			}
+			continue
+		}
 		si, _ := e.w.app.CustomSlashingKeeper.GetValidatorSigningInfo(ctx, v.GetConsAddr())
 		vs = append(vs, fmt.Sprintf("%d:%s:%d:%d:%d:%d", i, stLetter(v.Status), v.Rank, v.Streak, si.Mischance, si.MischanceConfidence))
 	}
 	q := func(keys [][]byte) string {
 		var ids []int
 		for _, k := range keys {
-			for i := 0; i < e.n; i++ {
-				if bytes.Equal(k, sdk.ValAddress(e.w.addrs[i])) {
+			for i := 0; i < e.m; i++ {
+				if bytes.Equal(k, sdk.ValAddress(e.w.addrs[e.acc(i)])) {
 					ids = append(ids, i)
 				}
 			}
@@ -120,7 +160,7 @@ func c15Allowed(a, b string) bool {
 		return true
 	}
 	switch a + b {
-	case "AP", "PA", "IA", "AI", "JI", "AJ", "IJ", "PJ", "JA":
+	case "AP", "PA", "IA", "AI", "JI", "AJ", "IJ", "PJ", "JA", "-A":
 		return true
 	}
 	return false
@@ -147,20 +187,38 @@ func (e *stakeEp) block(absent map[int]bool, mid []stakeOp, txs []stakeOp, dt ti
 	}
 	before := e.statuses(w.ReadCtx())
 	inactiveUntil := map[int]int64{}
-	for i := 0; i < e.n; i++ {
-		if si, ok := w.app.CustomSlashingKeeper.GetValidatorSigningInfo(w.ReadCtx(), e.val(w.ReadCtx(), i).GetConsAddr()); ok {
-			inactiveUntil[i] = si.InactiveUntil.Unix()
+	for i := 0; i < e.m; i++ {
+		if vv, has := e.valOK(w.ReadCtx(), i); has {
+			if si, ok := w.app.CustomSlashingKeeper.GetValidatorSigningInfo(w.ReadCtx(), vv.GetConsAddr()); ok {
+				inactiveUntil[i] = si.InactiveUntil.Unix()
+			}
 		}
 	}
 	// consecutive owner messages of one validator travel in ONE transaction (same signer, same sequence number)
 	var txBytes [][]byte
 	var txOf []int // op index -> tx index
+	newCons := map[int][]byte{} // consensus address announced by the claim of an account without record (kept if accepted)
 	for i := 0; i < len(txs); {
 		j := i
 		var msgs []sdk.Msg
 		for j < len(txs) && txs[j].v == txs[i].v {
-			va := sdk.ValAddress(w.addrs[txs[j].v])
+			va := sdk.ValAddress(w.addrs[e.acc(txs[j].v)])
 			switch txs[j].kind {
+			case "claim":
+				// MsgClaimValidator with a FRESH consensus key and a fresh moniker - from an account that has no record yet, or
+				// (to be refused) from one that has
+				e.claims++
+				key := sdked25519.GenPrivKeyFromSecret([]byte(fmt.Sprintf("%s-claim-%d", e.label, e.claims)))
+				cm, err := stakingtypes.NewMsgClaimValidator(fmt.Sprintf("mon%dx%d", txs[j].v, e.claims), va, key.PubKey())
+				if err != nil {
+					panic(err)
+				}
+				msgs = append(msgs, cm)
+				if _, has := e.valOK(w.ReadCtx(), txs[j].v); !has {
+					newCons[txs[j].v] = key.PubKey().Address()
+				} else {
+					e.cons[1000+e.claims] = key.PubKey().Address() // a key that must never reach the consensus set
+				}
 			case "pause":
 				msgs = append(msgs, slashingtypes.NewMsgPause(va))
 			case "unpause":
@@ -171,7 +229,7 @@ func (e *stakeEp) block(absent map[int]bool, mid []stakeOp, txs []stakeOp, dt ti
 			txOf = append(txOf, len(txBytes))
 			j++
 		}
-		txBytes = append(txBytes, w.MustSign(msgs, txs[i].v, ukex(5000)))
+		txBytes = append(txBytes, w.MustSign(msgs, e.acc(txs[i].v), ukex(5000)))
 		i = j
 	}
 	type midRes struct {
@@ -189,7 +247,11 @@ func (e *stakeEp) block(absent map[int]bool, mid []stakeOp, txs []stakeOp, dt ti
 	for _, ev := range evs {
 		addr := []byte(ed25519.GenPrivKeyFromSecret([]byte(fmt.Sprintf("nobody-%d", ev.v))).PubKey().Address())
 		if !ev.unknown {
-			addr = w.valPriv[ev.v].PubKey().Address()
+			if ev.v < e.n {
+				addr = w.valPriv[ev.v].PubKey().Address()
+			} else {
+				addr = e.cons[ev.v]
+			}
 		}
 		m := abci.Misbehavior{Type: abci.MisbehaviorType_DUPLICATE_VOTE, Validator: abci.Validator{Address: addr, Power: 1},
 			Height: w.height, Time: w.now, TotalVotingPower: int64(len(w.valSet.Validators))}
@@ -214,12 +276,12 @@ func (e *stakeEp) block(absent map[int]bool, mid []stakeOp, txs []stakeOp, dt ti
 			case "unjail":
 				h := staking.NewApplyUnjailValidatorProposalHandler(w.app.CustomStakingKeeper, w.app.CustomGovKeeper)
 				err = withCache(ctx, func(c sdk.Context) error {
-					return h.Apply(c, 1, stakingtypes.NewUnjailValidatorProposal(w.addrs[0], sdk.ValAddress(w.addrs[m.v]), "ref"), sdk.ZeroDec())
+					return h.Apply(c, 1, stakingtypes.NewUnjailValidatorProposal(w.addrs[0], sdk.ValAddress(w.addrs[e.acc(m.v)]), "ref"), sdk.ZeroDec())
 				})
 			case "rankreset":
 				err = w.app.CustomSlashingKeeper.ResetWholeValidatorRank(ctx)
 			case "kpause":
-				w.app.CustomStakingKeeper.Pause(ctx, sdk.ValAddress(w.addrs[m.v]))
+				w.app.CustomStakingKeeper.Pause(ctx, sdk.ValAddress(w.addrs[e.acc(m.v)]))
 			}
 			out := "ok"
 			if err != nil {
@@ -251,6 +313,8 @@ func (e *stakeEp) block(absent map[int]bool, mid []stakeOp, txs []stakeOp, dt ti
 					ok = ok && i == target && prev[i] == "P" && after[i] == "A"
 				case "activate":
 					ok = ok && i == target && prev[i] == "I" && after[i] == "A"
+				case "claim": // the pending entry becomes an Active validator at the end of the block
+					ok = ok && i == target && prev[i] == "-" && after[i] == "A"
 				case "jail":
 					ok = ok && i == target && after[i] == "J"
 				case "unjail":
@@ -307,6 +371,15 @@ func (e *stakeEp) block(absent map[int]bool, mid []stakeOp, txs []stakeOp, dt ti
 		}
 		if t.kind == "activate" {
 			r.Op(fmt.Sprintf("stake activate %d %d", t.v, nowNext), out)
+		} else if t.kind == "claim" {
+			r.Op(fmt.Sprintf("stake claim %d", t.v), out)
+			if a, isNew := newCons[t.v]; isNew {
+				if out == "ok" {
+					e.cons[t.v] = a
+				} else {
+					e.cons[1000+1000*i+t.v] = a
+				}
+			}
 		} else {
 			r.Op(fmt.Sprintf("stake %s %d", t.kind, t.v), out)
 		}
@@ -402,9 +475,14 @@ func (e *stakeEp) block(absent map[int]bool, mid []stakeOp, txs []stakeOp, dt ti
 			r.Fail("C05/power-not-one", fmt.Sprintf("%s: validator with voting power %d", e.label, v.VotingPower), nil)
 		}
 	}
-	for i := 0; i < e.n; i++ {
+	for i := 0; i < e.m; i++ {
 		if inV[i] != (after[i] == "A") {
 			e.mismatch(i, inV[i], after[i])
+		}
+	}
+	for _, v := range w.valSet.Validators {
+		if idx := e.valIndexByConsAddr(v.Address); idx < 0 || idx >= e.m {
+			e.r.Fail("C05/set-mismatch/unknown-key", fmt.Sprintf("%s: after block %d the consensus set holds a key that belongs to no validator record (announced by a refused claim: %v)", e.label, w.height, idx >= 1000), nil)
 		}
 	}
 	return true
@@ -458,7 +536,12 @@ func newStakeEp(r *Rec, prop string, n int, label string) *stakeEp {
 // newStakeEpGenesis: the chain starts from a genesis in which some validators are not active (an export taken while they
 // were paused / inactive / jailed, imported into a new chain): the consensus engine must be handed exactly the active ones
 func newStakeEpGenesis(r *Rec, prop string, n int, label string, genesis map[int]stakingtypes.ValidatorStatus) *stakeEp {
-	w := NewWorld(WorldOpts{NAcc: n + 1, NVal: n, SudoAccs: []int{n}, CommitDelay: true, MutGenesis: func(w *World, gs simapp.GenesisState) {
+	return newStakeEpClaimers(r, prop, n, 0, label, genesis)
+}
+
+// newStakeEpClaimers: as above, plus `extra` accounts that hold PermClaimValidator but have no validator record yet
+func newStakeEpClaimers(r *Rec, prop string, n, extra int, label string, genesis map[int]stakingtypes.ValidatorStatus) *stakeEp {
+	w := NewWorld(WorldOpts{NAcc: n + 1 + extra, NVal: n, SudoAccs: []int{n}, CommitDelay: true, MutGenesis: func(w *World, gs simapp.GenesisState) {
 		if len(genesis) == 0 {
 			return
 		}
@@ -472,7 +555,7 @@ func newStakeEpGenesis(r *Rec, prop string, n int, label string, genesis map[int
 		}
 		gs[stakingtypes.ModuleName] = cdc.MustMarshalJSON(&sg)
 	}})
-	e := &stakeEp{r: r, w: w, n: n, prop: prop, label: label, promoted: map[int]bool{}}
+	e := &stakeEp{r: r, w: w, n: n, m: n + extra, prop: prop, label: label, promoted: map[int]bool{}, cons: map[int][]byte{}}
 	// small windows so that downtime and unjail deadlines are reached within an episode
 	ctx := w.KeeperCtx()
 	np := w.app.CustomGovKeeper.GetNetworkProperties(ctx)
@@ -486,7 +569,23 @@ func newStakeEpGenesis(r *Rec, prop string, n int, label string, genesis map[int
 		panic(err)
 	}
 	r.Mark(label)
-	r.Op(fmt.Sprintf("stake reset n=%d", n), "ok")
+	if extra > 0 {
+		// every observed account may claim (again): the refusal of a second claim must come from the record check
+		for i := 0; i < e.m; i++ {
+			a, ok := w.app.CustomGovKeeper.GetNetworkActorByAddress(ctx, w.addrs[e.acc(i)])
+			if !ok {
+				a = govtypes.NewDefaultActor(w.addrs[e.acc(i)])
+			}
+			if !a.Permissions.IsWhitelisted(govtypes.PermClaimValidator) {
+				if err := w.app.CustomGovKeeper.AddWhitelistPermission(ctx, a, govtypes.PermClaimValidator); err != nil {
+					panic(err)
+				}
+			}
+		}
+		r.Op(fmt.Sprintf("stake reset n=%d m=%d", n, e.m), "ok")
+	} else {
+		r.Op(fmt.Sprintf("stake reset n=%d", n), "ok")
+	}
 	r.Op(fmt.Sprintf("stake params mc=%d mm=%d rd=%d pct=%s dt=%d minv=%d ujt=%d", np.MischanceConfidence, np.MaxMischance, np.MischanceRankDecreaseAmount, np.InactiveRankDecreasePercent.String(), np.DowntimeInactiveDuration, np.MinValidators, np.UnjailMaxTime), "ok")
 	if len(genesis) > 0 {
 		var vs []int
@@ -628,7 +727,12 @@ func runStake(r *Rec, prop string) {
 	}
 	for ep := 0; ep < nEp; ep++ {
 		n := 3 + r.Rng.Intn(2)
-		e := newStakeEp(r, prop, n, fmt.Sprintf("episode-%d", ep))
+		extra := 0
+		if ep%2 == 1 {
+			extra = 2 // two accounts that may claim a validator seat during the episode
+		}
+		e := newStakeEpClaimers(r, prop, n, extra, fmt.Sprintf("episode-%d", ep), nil)
+		n = e.m // every loop below ranges over the observed accounts; "-" marks one without a record
 		downUntil := map[int]int{} // validator -> remaining blocks of absence
 		for b := 0; b < nBlocks && !e.halt; b++ {
 			ctx := e.w.ReadCtx()
@@ -645,6 +749,9 @@ func runStake(r *Rec, prop string) {
 			}
 			absent := map[int]bool{}
 			for i := 0; i < n; i++ {
+				if st[i] == "-" {
+					continue
+				}
 				if downUntil[i] > 0 {
 					absent[i] = true
 					downUntil[i]--
@@ -709,6 +816,11 @@ func runStake(r *Rec, prop string) {
 					txs = append(txs, stakeOp{"activate", v})
 				case "J":
 					mid = append(mid, stakeOp{"unjail", v})
+				case "-":
+					if r.Rng.Intn(3) > 0 {
+						continue
+					}
+					txs = append(txs, stakeOp{"claim", v})
 				}
 				touched[v] = true
 			}
@@ -723,13 +835,16 @@ func runStake(r *Rec, prop string) {
 			if r.Rng.Intn(4) == 0 {
 				v := r.Rng.Intn(n)
 				if !touched[v] {
-					wrong := map[string][]string{"A": {"unpause", "activate"}, "P": {"pause", "activate"}, "I": {"pause", "unpause"}, "J": {"pause", "unpause", "activate"}}[st[v]]
+					wrong := map[string][]string{"A": {"unpause", "activate"}, "P": {"pause", "activate"}, "I": {"pause", "unpause"}, "J": {"pause", "unpause", "activate"}, "-": {"pause", "unpause", "activate"}}[st[v]]
+					if extra > 0 && st[v] != "-" && r.Rng.Intn(2) == 0 {
+						wrong = []string{"claim"} // a second claim (fresh key, fresh moniker) by an account that already has a validator
+					}
 					txs = append(txs, stakeOp{wrong[r.Rng.Intn(len(wrong))], v})
 					touched[v] = true
 				}
 			}
 			if r.Rng.Intn(10) == 0 { // evidence naming a consensus key nobody owns: ignored
-				e.ev = append(e.ev, evOp{v: r.Rng.Intn(n), unknown: true})
+				e.ev = append(e.ev, evOp{v: r.Rng.Intn(e.n), unknown: true})
 			}
 			dt := time.Duration(3+r.Rng.Intn(10)) * time.Second
 			if !e.block(absent, mid, txs, dt) && e.endErr != "" && !strings.HasPrefix(e.endErr, "err:empty") {
